@@ -112,7 +112,14 @@ def insert_subtier(kg, ins):
         times, values = [lo + (hi - lo) / 4, lo + (hi - lo) / 2], [1800.0 + ins[2], 1750.125]
         entries = zip(times, values) if ins[2] % 2 else list(zip(times, values))  # the points may arrive as a one-shot iterable
         sub = KlattSubPointTier(name, entries, lo, hi)
-        kit.addTier(sub, idx if idx < len(kit.tierNameList) else None)
+        names_before = list(kit.tierNameList)
+        at = idx if idx < len(kit.tierNameList) else None
+        kit.addTier(sub, at)
+        names_exp = names_before + [name] if at is None else names_before[:at] + [name] + names_before[at:]
+        if list(kit.tierNameList) != names_exp or kit.tierDict.get(name) is not sub:
+            REC.violation(PROP, "kg.save", "addTier", {"call": "kg.subtier", "times": times, "values": values, "one_shot": bool(ins[2] % 2)},
+                          "a sub-tier added at index %r: the tier's name list is %r, expected %r" % (at, list(kit.tierNameList), names_exp),
+                          ("subtier-order",), {"op": "kg.subtier.order"})
         held = [(float(t), float(v)) for t, v in sub.entries]
         if held != list(zip(times, values)):
             REC.violation(PROP, "kg.save", "KlattSubPointTier", {"call": "kg.subtier", "times": times, "values": values, "one_shot": bool(ins[2] % 2)},
@@ -300,6 +307,27 @@ def _save_post(ctx):
         why = stream_diff(stream, flatten(s))
         if why is None and K.section_names(text) != [t["name"] for t in s["tiers"]]:
             why = "sections %r, tiers in memory %r" % (K.section_names(text), [t["name"] for t in s["tiers"]])
+        if why is None:
+            # the points of every tier are numbered 1 .. size, as the size line announces (a reader that goes by these numbers - Praat
+            # does - finds every point)
+            import re as _re
+
+            want, nxt = None, None
+            for ln in text.split("\n"):
+                m1 = _re.match(r"^\s*points: size = (\d+)\s*$", ln)
+                m2 = _re.match(r"^\s*points \[(\d+)\]:\s*$", ln)
+                if m1:
+                    if want is not None and nxt != want + 1:
+                        why = "a tier announces %d points and numbers %d of them" % (want, nxt - 1)
+                        break
+                    want, nxt = int(m1.group(1)), 1
+                elif m2:
+                    if want is None or int(m2.group(1)) != nxt or nxt > want:
+                        why = "point numbered %s where number %s of %s was due" % (m2.group(1), nxt, want)
+                        break
+                    nxt += 1
+            if why is None and want is not None and nxt != want + 1:
+                why = "the last tier announces %d points and numbers %d of them" % (want, nxt - 1)
     if why:
         _bad_saves[os.path.abspath(str(fn))] = text
         REC.violation(PROP, "kg.save", "Klattgrid.save", case, "the saved file's number stream (left) differs from the grid in memory (right): %s" % why, sig, mech)
